@@ -59,13 +59,17 @@ def item_credit(table, alts, s):
 
 def make_case(rng):
     table = rand_table(rng)
-    n = rng.randint(1, 5)
-    nlists = rng.choice([1, 1, 2, 3])
+    n = rng.choice([1, 2, 3, 3, 4, 4, 5, 5])
+    nlists = rng.choice([1, 1, 2, 2, 3])
     lists = []
     for li in range(nlists):
         items = [rand_item(rng) for _ in range(n)]
         lists.append({'items': [it[0] for it in items], 'alts': [it[1] for it in items],
                       'credit': rng.choice([1, 1, 0.5, 0.7]), 'msg': rng.choice(['', 'LISTMSG%d' % li, 'LONGER-LISTMSG%d' % li])})
+    if nlists > 1 and rng.random() < 0.4:
+        # same credit and message for all lists, so that they can be given as one answer with an expect tuple
+        for l in lists[1:]:
+            l['credit'], l['msg'] = lists[0]['credit'], lists[0]['msg']
     cfg = {'ordered': rng.random() < 0.5, 'partial_credit': rng.random() < 0.65,
            'length_error': rng.random() < 0.25, 'missing_error': rng.random() < 0.5,
            'delimiter': rng.choice([',', ',', ';', '--', ' and ', '|'])}
@@ -149,7 +153,7 @@ def run_main(ctx):
     for i in range(ctx.n(6400, 150000)):
         table, lists, cfg = make_case(rng)
         n = len(lists[0]['items'])
-        g = build(table, lists, cfg, use_tuple_expect=(i % 7 == 0))
+        g = build(table, lists, cfg, use_tuple_expect=(i % 3 == 0))
         # submission: derived from a target list (permuted / truncated / extended / corrupted) or random
         base = [alts[0][0] for alts in rng.choice(lists)['alts']]
         kind = rng.choice(['exact', 'perm', 'short', 'long', 'corrupt', 'random', 'blank', 'alt'])
